@@ -90,6 +90,9 @@ func buildTx(s *txSpec) (*ledger.Transaction, *rejected) {
 		WithDate(ts).
 		WithID(bigOf(s.ID)).
 		WithReference(s.Reference)
+	if s.Postings != nil && len(s.Postings) == 0 {
+		tx.Postings = ledger.Postings{} // empty, not nil
+	}
 	tx.Reverted = s.Reverted
 	return tx, nil
 }
@@ -414,15 +417,19 @@ func coqTx(tx *ledger.Transaction) string {
 	if tx.ID == nil {
 		panic(unrepresentable{"nil transaction id"})
 	}
-	var ps []string
+	ps := []string{}
 	for _, p := range tx.Postings {
 		if p.Amount == nil {
 			panic(unrepresentable{"nil amount"})
 		}
 		ps = append(ps, fmt.Sprintf("{| p_src := %s; p_dst := %s; p_amount := %s; p_asset := %s |}", coqStr(p.Source), coqStr(p.Destination), vx.CoqZ(p.Amount.String()), coqStr(p.Asset)))
 	}
+	pl := "None"
+	if tx.Postings != nil {
+		pl = "(Some " + vx.CoqList(ps) + ")"
+	}
 	return fmt.Sprintf("(mk_tx %s %s %s %s %s %s)",
-		vx.CoqList(ps), coqMeta(tx.Metadata), coqStr(timeText(tx.Timestamp)), coqStr(tx.Reference), vx.CoqZ(tx.ID.String()), vx.CoqBool(tx.Reverted))
+		pl, coqMeta(tx.Metadata), coqStr(timeText(tx.Timestamp)), coqStr(tx.Reference), vx.CoqZ(tx.ID.String()), vx.CoqBool(tx.Reverted))
 }
 
 func coqTarget(tt string, id any) string {
@@ -506,18 +513,21 @@ type outcome struct {
 	msg   string
 }
 
-func (o outcome) coq() string {
+func (o outcome) coq(same string) string {
 	switch o.kind {
 	case "ok":
 		s, unrep := coqEntry(o.entry)
 		if unrep != "" {
-			return "Err (* decoded value outside the model: " + strings.ReplaceAll(unrep, "*", "") + " *)"
+			return "DErr (* decoded value outside the model: " + strings.ReplaceAll(unrep, "*", "") + " *)"
 		}
-		return "Ok " + s
+		if s == same {
+			return "DSame"
+		}
+		return "(DOk " + s + ")"
 	case "err":
-		return "Err"
+		return "DErr"
 	}
-	return "Panic"
+	return "DPanic"
 }
 
 func readJSON(js []byte) (o outcome) {
@@ -962,8 +972,8 @@ func runChain(in input) (fails []failure, cases []string, rej string, stats map[
 			if prev != nil {
 				prevH = "(Some " + coqStr(base64.StdEncoding.EncodeToString(prev.Hash)) + ")"
 			}
-			cases = append(cases, fmt.Sprintf("{| cs_prev := %s;\n   cs_entry := %s;\n   cs_json := %s;\n   cs_dec := %s;\n   cs_rowdata := %s;\n   cs_rowdec := %s;\n   cs_hashin := %s |}",
-				prevH, es, jval.coqString(), oj.coq(), dataBack.coqString(), or.coq(), coqStr(string(hin))))
+			cases = append(cases, fmt.Sprintf("mk_case %s\n   %s\n   (%s)\n   %s\n   (%s)\n   %s\n   %s",
+				prevH, es, jval.coqString(), oj.coq(es), dataBack.coqString(), or.coq(es), coqStr(string(hin))))
 		} else {
 			cases = append(cases, "")
 		}
@@ -1208,7 +1218,9 @@ func genTx(g *vx.Rng) *txSpec {
 	if g.Chance(1, 20) {
 		n = 0
 	}
-	t.Postings = []postingSpec{}
+	if n > 0 || g.Bool() {
+		t.Postings = []postingSpec{}
+	}
 	for i := 0; i < n; i++ {
 		t.Postings = append(t.Postings, postingSpec{addrPool[g.Intn(len(addrPool))], addrPool[g.Intn(len(addrPool))], genAmount(g), assetPool[g.Intn(len(assetPool))]})
 	}
